@@ -30,6 +30,7 @@ type World struct {
 	constOrder []string
 	funs       map[string]string // uninterpreted function declarations, by name
 	funOrder   []string
+	defFuns    map[string]string // defined functions: name -> "(params) Sort body"
 	defs       map[string]*Def
 	defOrder   []*Def
 	axioms     []*Term
@@ -50,7 +51,7 @@ type World struct {
 func NewWorld(mode string) *World {
 	w := &World{Mode: mode,
 		records: map[Sort]*Record{}, recByKey: map[string]*Record{},
-		consts: map[string]Sort{}, funs: map[string]string{}, defs: map[string]*Def{},
+		consts: map[string]Sort{}, funs: map[string]string{}, defs: map[string]*Def{}, defFuns: map[string]string{},
 		typeIDs: map[string]int{}, strLits: map[string]*Term{}, fnIDs: map[string]*Term{}}
 	if mode == "bv" {
 		w.IS = SBV64
@@ -117,6 +118,17 @@ func (w *World) declFun(name, sig string) {
 	w.funOrder = append(w.funOrder, name)
 }
 
+// defineFun registers (define-fun name (params) sort body); it shares the ordering of declFun so
+// that later functions may refer to earlier ones.
+func (w *World) defineFun(name, sig string) {
+	if _, ok := w.funs[name]; ok {
+		return
+	}
+	w.funs[name] = sig
+	w.defFuns[name] = sig
+	w.funOrder = append(w.funOrder, name)
+}
+
 func (w *World) declConst(name string, s Sort) *Term {
 	if old, ok := w.consts[name]; ok {
 		if old != s {
@@ -137,14 +149,16 @@ func (w *World) Fresh(prefix string, s Sort) *Term {
 
 // Define introduces a named abbreviation for t when it is large.
 func (w *World) Define(prefix string, t *Term) *Term {
-	if len(t.String()) < 160 || strings.Contains(t.String(), "!q") {
+	if len(t.String()) < 160 || strings.Contains(t.String(), "!q") || strings.Contains(t.String(), "p!") {
 		return t // small, or mentions a quantifier-bound variable
 	}
 	w.seq++
 	d := &Def{Name: fmt.Sprintf("%s!d%d", smtName(prefix), w.seq), Sort: t.Sort, Body: t.String(), Seq: w.seq, T: t}
 	w.defs[d.Name] = d
 	w.defOrder = append(w.defOrder, d)
-	return Atom(d.Name, t.Sort)
+	a := Atom(d.Name, t.Sort)
+	a.Def = t
+	return a
 }
 
 // ---------------------------------------------------------------------------
@@ -604,11 +618,24 @@ func (w *World) Script(assumptions []*Term, goal *Term, wantModel bool) string {
 		sb.WriteString(r.Decl())
 		sb.WriteByte('\n')
 	}
+	// defined functions may use other functions: close the used set over their bodies
+	for i := len(w.funOrder) - 1; i >= 0; i-- {
+		f := w.funOrder[i]
+		if used[f] {
+			if body, ok := w.defFuns[f]; ok {
+				symbolsOf(body, used)
+			}
+		}
+	}
 	for _, f := range w.funOrder {
 		if !used[f] {
 			continue
 		}
 		sig := w.funs[f]
+		if _, ok := w.defFuns[f]; ok {
+			fmt.Fprintf(&sb, "(define-fun %s %s)\n", f, sig)
+			continue
+		}
 		// sig is "(args) ret"
 		fmt.Fprintf(&sb, "(declare-fun %s %s)\n", f, sig)
 	}
